@@ -26,6 +26,7 @@ import (
 	"sigs.k8s.io/controller-runtime/pkg/reconcile"
 
 	terwaydaemon "github.com/AliyunContainerService/terway/daemon"
+	aliyunClient "github.com/AliyunContainerService/terway/pkg/aliyun/client"
 	networkv1beta1 "github.com/AliyunContainerService/terway/pkg/apis/network.alibabacloud.com/v1beta1"
 	nodectl "github.com/AliyunContainerService/terway/pkg/controller/multi-ip/node"
 	"github.com/AliyunContainerService/terway/pkg/eni"
@@ -522,6 +523,9 @@ func (w *World) startController() {
 			}
 			if w.restartCtl {
 				w.restartCtl = false
+				// idempotency tokens die with the process
+				w.cloud.timedOut = map[string]string{}
+				w.cloud.timedOutAssign = map[string][]aliyunClient.IPSet{}
 				w.api.ResetCache()
 				w.newController()
 				backoff = time.Second
